@@ -87,6 +87,11 @@ type Op struct {
 	// other way to report one). The open must fail (and is then repeated
 	// without the fault) or be complete; it must not succeed on a partial scan.
 	IterFault int `json:"iterFault,omitempty"`
+	// faildeliver with Cancel: nothing fails; the context of the upload is
+	// cancelled the moment the index rows have committed the blob's batch (a
+	// client that goes away), and the client uploads the blob again with a
+	// live context if it was told the first upload failed.
+	Cancel bool `json:"cancel,omitempty"`
 }
 
 func (o Op) barrier() bool { return o.K != "deliver" && o.K != "bulk" }
@@ -196,6 +201,8 @@ type session struct {
 	// be made to fail; failHave: "have:<ref>" keys whose batch fails once
 	faultKV  bool
 	failHave map[string]bool
+	// cancelHave: "have:<ref>" -> cancel function of the upload in flight
+	cancelHave map[string]context.CancelFunc
 	// failFind > 0: see Op.IterFault (armed for one Find)
 	failFind int
 	// failFetch > 0: the failFetch-th fetch from the source fails (fetchfaultdeliver)
@@ -319,7 +326,19 @@ func (kv faultKV) CommitBatch(bm sorted.BatchMutation) error {
 		simcore.Yield("indexsim.kv.commit.fail")
 		return errCommit
 	}
-	return kv.KeyValue.CommitBatch(fb.BatchMutation)
+	err := kv.KeyValue.CommitBatch(fb.BatchMutation)
+	if err == nil {
+		kv.s.mu.Lock()
+		for _, k := range fb.keys {
+			if cancel := kv.s.cancelHave[k]; cancel != nil {
+				delete(kv.s.cancelHave, k)
+				kv.s.reach["upload-context-cancelled-at-commit"]++
+				cancel()
+			}
+		}
+		kv.s.mu.Unlock()
+	}
+	return err
 }
 
 // failDeliver executes a faildeliver op as a task of its own and reports
@@ -335,6 +354,34 @@ func (s *session) failDeliver(op Op, n int) (failed bool, err error) {
 			s.mu.Lock()
 			s.recvErrs = append(s.recvErrs, fmt.Sprintf("source put %s: %v", b.RefS, err))
 			s.mu.Unlock()
+		}
+		if op.Cancel {
+			cctx, cancel := context.WithCancel(ctx)
+			s.mu.Lock()
+			if s.cancelHave == nil {
+				s.cancelHave = map[string]context.CancelFunc{}
+			}
+			s.cancelHave["have:"+b.RefS] = cancel
+			s.mu.Unlock()
+			_, rerr := s.idx.ReceiveBlob(cctx, b.Ref, bytes.NewReader(b.Data))
+			s.mu.Lock()
+			delete(s.cancelHave, "have:"+b.RefS)
+			s.mu.Unlock()
+			cancel()
+			if rerr != nil && errors.Is(rerr, context.Canceled) {
+				// told that the upload failed: the client uploads again
+				s.mu.Lock()
+				s.reach["upload-reported-cancelled-then-repeated"]++
+				s.mu.Unlock()
+				_, rerr = s.idx.ReceiveBlob(ctx, b.Ref, bytes.NewReader(b.Data))
+			}
+			s.mu.Lock()
+			s.delivered[b.RefS] = true
+			if rerr != nil {
+				s.recvErrs = append(s.recvErrs, fmt.Sprintf("index receive of item %d (%s): %v", op.I, s.w.item(op.I).K, rerr))
+			}
+			s.mu.Unlock()
+			return
 		}
 		s.mu.Lock()
 		if s.failHave == nil {
@@ -749,7 +796,11 @@ func (w *world) describeOps(ops []Op) []string {
 		case "bulk":
 			out = append(out, fmt.Sprintf("c%d: %d opaque filler blobs", op.C, op.N))
 		case "faildeliver":
-			out = append(out, fmt.Sprintf("c%d: %s [the index rows fail the commit of this blob once]", op.C, w.describe(op.I)))
+			if op.Cancel {
+				out = append(out, fmt.Sprintf("c%d: %s [the upload's context is cancelled the moment the rows are committed; repeated if reported failed]", op.C, w.describe(op.I)))
+			} else {
+				out = append(out, fmt.Sprintf("c%d: %s [the index rows fail the commit of this blob once]", op.C, w.describe(op.I)))
+			}
 		case "fetchfaultdeliver":
 			out = append(out, fmt.Sprintf("c%d: %s [fetch #%d from the blob source during this delivery fails with a read error]", op.C, w.describe(op.I), op.N))
 		default:
